@@ -10,6 +10,7 @@ import (
 	"fmt"
 	"go/types"
 	"os"
+	"runtime"
 	"runtime/debug"
 	"sort"
 	"strings"
@@ -1101,10 +1102,16 @@ func trimStack(b []byte) string {
 	return strings.Join(keep, " < ")
 }
 
+var runSem = make(chan struct{}, runtime.NumCPU())
+
 func (w *World) worker(id int, wg *sync.WaitGroup) {
 	defer wg.Done()
-	c := w.newCtx(id)
-	defer c.solver.Close()
+	var c *Ctx
+	defer func() {
+		if c != nil {
+			c.solver.Close()
+		}
+	}()
 	for {
 		w.mu.Lock()
 		for len(w.queue) == 0 && w.active > 0 && !w.stop {
@@ -1120,7 +1127,12 @@ func (w *World) worker(id int, wg *sync.WaitGroup) {
 		w.active++
 		w.mu.Unlock()
 
+		runSem <- struct{}{}
+		if c == nil {
+			c = w.newCtx(id)
+		}
 		reason := c.runOne(p)
+		<-runSem
 
 		w.mu.Lock()
 		w.active--
@@ -1142,6 +1154,9 @@ func (w *World) worker(id int, wg *sync.WaitGroup) {
 		}
 		w.mu.Unlock()
 		w.cond.Broadcast()
+	}
+	if c == nil {
+		return
 	}
 	w.mu.Lock()
 	w.stats.Queries += c.solver.Queries
